@@ -33,6 +33,8 @@ def main():
         out.append('| %s | %s | %s | mutants/unfix-%s.diff | %s |' % (k['property'], k['commit'], k['what'].replace('|', '/')[:170], k['commit'], det))
     out.append('')
     out.append('### 9.6 Seeded property-breaking changes (seeded/, written by sub-agents that saw only the property text)\n')
+    tally = {'own': 0, 'other': 0, 'superseded': 0, 'none': 0}
+    summary_at = len(out)
     out.append('| Change | property | what it needs to manifest (from the author\'s note) | detected by | keys |')
     out.append('|---|---|---|---|---|')
     for d in sorted(glob.glob(os.path.join(HERE, 'seeded', '*'))):
@@ -47,9 +49,13 @@ def main():
         for k, v in det.items():
             if v.get('detected'):
                 keys += v.get('violation_keys', [])[:2]
-        status = ', '.join(hits) if hits else ('superseded' if m.get('status', '').startswith('superseded') else ('MISSED' if det else 'not run'))
+        status = ', '.join(hits) if hits else (m['status'] if m.get('status') else ('MISSED' if det else 'not run'))
+        tally['own' if (m['property'] + ':quick') in hits else ('other' if hits else ('superseded' if m.get('status', '').startswith('superseded') else 'none'))] += 1
         out.append('| %s | %s | %s | %s | %s |' % (m['name'], m['property'], needs, status, ', '.join(keys[:3])))
     out.append('')
+    out.insert(summary_at, 'All %d changes were re-run against the final version of their property\'s quick check (regression run of 2026-09-28): %d are detected by '
+               'their own property\'s check, %d only by the check of another property (named in the table), %d lost their precondition through a later '
+               'fix (superseded), %d are not detected (reason in the table).\n' % (sum(tally.values()), tally['own'], tally['other'], tally['superseded'], tally['none']))
     text = '\n'.join(out)
     path = os.path.join(HERE, 'DESIGN.md')
     s = open(path).read()
